@@ -140,12 +140,16 @@ func migrateApplyRun(cmd *cobra.Command, args []string, flags migrateApplyFlags,
 		if err = mux.mayRollback(ex.Execute(ctx, f)); err != nil {
 			break
 		}
+		verifPoint("commit.before")
 		if err = mux.mayCommit(); err != nil {
 			break
 		}
+		verifPoint("commit.after")
 	}
 	if err == nil {
+		verifPoint("commitall.before")
 		if err = mux.commit(); err == nil {
+			verifPoint("commitall.after")
 			report.Log(migrate.LogDone{})
 		}
 	}
